@@ -8,7 +8,7 @@ IR statements (dicts, 'k' = kind):
   if       test=expr, body, orelse        (orelse consisting of a single `if` is rendered as elif)
   while    test=expr, body, orelse, lid
   for      target=pattern, iter=expr, body, orelse
-  try      body, handlers=[{kinds, name, site, body}], orelse, final
+  try      body, handlers=[{kinds, name, site, type=reads of the type expression, body}], orelse, final
   with     items=[(expr, pattern|None)], body
   mayraise kinds ; raise kind ; return value=expr|None ; break ; continue ; pass
 pattern: ('n', name, site) | ('t', [patterns]) | ('s', name, site)   (starred)
@@ -159,7 +159,9 @@ class Gen(object):
         for _ in range(self.rng.choice([0, 1, 1, 2, 2, 3])):
             kinds = self.rng.choice([[], [1], [2], [3], [1, 2], [2, 3], [1], [2]])
             nm = self.rng.choice((self.hnames if self.c03 else self.names) + ['', ''])
-            handlers.append({'kinds': kinds, 'name': nm, 'site': 0, 'body': self.block(d - 1, inloop, 1, 2)})
+            # now and then the clause's type expression reads names (`except mod.Error:` after `import mod` in the try body)
+            ty = [a for a in self.expr(1, 2) if a[0] == 'r'] if self.rng.random() < 0.3 else []
+            handlers.append({'kinds': kinds, 'name': nm, 'site': 0, 'type': ty, 'body': self.block(d - 1, inloop, 1, 2)})
         if self.c02 or self.c03:
             # every handler live; exceptions only at the first / last statement of the body and always caught
             live, seen = [], set()
@@ -362,6 +364,7 @@ def number(body):
             hs = []
             for h in s['handlers']:
                 h = dict(h)
+                h['type'] = ex(h.get('type') or [])
                 h['site'] = f('bind', h['name']) if h['name'] else 0
                 h['body'] = blk(h['body'])
                 hs.append(h)
@@ -577,6 +580,9 @@ def render(body, flavour='func', pre=None, layout=None):
             for h in s['handlers']:
                 line = len(out) + 1
                 cls = '_vEB' if not h['kinds'] else '(' + ', '.join('_vE[%d]' % x for x in h['kinds']) + ',)'
+                if h.get('type'):
+                    head = pad + 'except _vo.ht(' + cls + ', '
+                    cls = '_vo.ht(' + cls + ', ' + expr(h['type'], line, len(head)) + ')'
                 if h['name']:
                     R.site_pos[h['site']] = (line, h['name'])
                 out.append(pad + 'except %s%s:' % (cls, (' as ' + h['name']) if h['name'] else ''))
@@ -710,7 +716,8 @@ def reduce_nodes(body):
             ids.append(blk(s['body']))
             return seq(ids)
         if k == 'try':
-            hs = [new(k='handler', kinds=list(h['kinds']), n=h['name'], s=h['site'], c=[blk(h['body'])]) for h in s['handlers']]
+            hs = [new(k='handler', kinds=list(h['kinds']), n=h['name'], s=h['site'],
+                      c=[blk(h['body']), seq(ex(h['type'])) if h.get('type') else 0]) for h in s['handlers']]
             return new(k='try', c=[blk(s['body']), blk(s['orelse']) if s['orelse'] else 0, blk(s['final']) if s['final'] else 0], hs=hs)
         raise AssertionError(k)
     nodes.append(None)          # id 1 reserved for the root
@@ -794,6 +801,9 @@ class Oracle(object):
 
     def dk(self, site, _e):
         return lambda f: Token(site)
+
+    def ht(self, cls, _e):
+        return cls
 
     def p(self, rid):
         self.tick()
